@@ -3,6 +3,7 @@
 -/
 import SparseV.Model.Validate
 import SparseV.Model.Elemwise
+import SparseV.Lemmas.Gen.Axis
 namespace SparseV
 namespace Validate
 
@@ -12,8 +13,8 @@ def normAxis (ndim : Int) (a : Int) : Int := if a < 0 then a + ndim else a
 theorem normalizeAxisInt_eq (axis ndim : Int) :
     Gen.normalizeAxisInt axis ndim =
       (if -ndim ≤ axis ∧ axis < ndim then .ok (normAxis ndim axis) else .error Err.value) := by
-  simp only [Gen.normalizeAxisInt, normAxis]
-  grind
+  rw [Gen.normalizeAxisInt_eq]
+  rfl
 
 /-- `normalize_axis` on a tuple: accepted iff every entry is in range; the result is the entry-wise normalisation -/
 theorem normalizeAxes_ok_iff : ∀ (as : List Int) (ndim : Int) (vs : List Int),
